@@ -7,7 +7,7 @@ PID = "C09"
 LEAN_MODULES = ["QbiceVerif.Props.C09",
                 "QbiceVerif.Lemmas.SetCacheConcBasic", "QbiceVerif.Lemmas.SetCacheConcInv", "QbiceVerif.Lemmas.SetCacheConcLocal",
                 "QbiceVerif.Lemmas.SetCacheConcStepA", "QbiceVerif.Lemmas.SetCacheConcStepB", "QbiceVerif.Lemmas.SetCacheConcStepC",
-                "QbiceVerif.Lemmas.SetCacheConcStepD", "QbiceVerif.Lemmas.SetCacheConcMain", "QbiceVerif.Lemmas.SetCacheConcOwner"]
+                "QbiceVerif.Lemmas.SetCacheConcStepD", "QbiceVerif.Lemmas.SetCacheConcMain", "QbiceVerif.Lemmas.SetCacheConcOwner", "QbiceVerif.Lemmas.CacheWideHandover"]
 DRIVER = "drv_cache"
 HARNESS_BIN = "cache"
 HARNESS_FEATURES = ""
@@ -26,8 +26,9 @@ PARTIAL = [
     "`orderedElem`; the `_reach` forms quantify over `ReachOrdered`). For sets the hypothesis is DISCHARGED by set_refines_map_concurrent_owned under the write discipline "
     "'every element of the key is written by one fixed task' (`ownedSched`; SetCacheConc.owned_is_ordered proves that it implies orderedElem at every stage). Nothing in the storage layer enforces either condition (the cache applies writes in arrival order, the store applies "
     "batches in epoch order): they are obligations of the CALLER. `ordered_is_needed`, `set_overlap_is_needed`, `set_epoch_order_is_needed` show they cannot be dropped. For the engine: "
-    "`orderedElem` was examined by reading and holds (see ASSUMPTIONS); `ordered` holds for the node-owned wide columns but was NOT established for DirtySetColumn keys (see ASSUMPTIONS) – "
-    "neither is machine-checked against the engine",
+    "the wide hypothesis is DISCHARGED by wide_refines_map_concurrent_handover under the hand-over discipline `exclusiveSched` (WideCacheR.exclusive_is_ordered). Both disciplines were "
+    "established for the engine by reading, with file:line references in ASSUMPTIONS (DirtySetColumn included: one put per key and timestamp by the dirty walk, deleted only by the caller's "
+    "own publication, which starts after the walk returned); neither is machine-checked against the engine",
 ]
 HISTORICAL = [
     "wide cache: finding F9 (stale fill under concurrency) was found by this check and fixed in /repo 5fe68af; the model of the code as it is is WideCacheR "
@@ -46,13 +47,25 @@ ASSUMPTIONS = [
     "and otherwise unconstrained (any capacity >= 1, any admission decision)",
     "concurrent wide theorem, hypothesis `ordered` – a write of a key reaches the cache only from a batch whose epoch exceeds that of every other uncommitted batch that "
     "already wrote the key. USAGE CONSTRAINT of the write-behind design (the store applies batches in epoch order whatever the order of the writes; no lock or generation in "
-    "wide_column_cache.rs relates the two), examined for the engine BY READING ONLY: epochs are handed out by `new_write_batch` in creation order; every wide column keyed by a query id "
-    "(QueryKind, NodeInfo, LastVerified, forward edges / observations, QueryInput/Result, PendingBackwardProjection) is written only by that query's publication block "
-    "(slow_path.rs execute_query → database.rs computing_lock_to_computed), whose batch is created and used while the query's computing lock is held, or by the input session for an "
-    "input query under the exclusive phase lock with a batch created after the lock (sync.rs) – so writes of such a key are sequential and in epoch order. NOT established: DirtySetColumn "
-    "keys (an edge caller→callee) are inserted by dirty propagation of ANOTHER query's publication block / the input session and removed by the caller's own publication block, from "
-    "batches created at different times; whether an insert from an older batch can follow a remove from a newer one inside one computation phase needs the engine-level argument "
-    "(C01/C02 territory) and was not made – a defect candidate, not a finding",
+    "wide_column_cache.rs relates the two). It is DISCHARGED by wide_refines_map_concurrent_handover under the hand-over discipline `exclusiveSched` (a writer of the key opens its "
+    "batch only while no other writer of the key has one open; WideCacheR.exclusive_is_ordered, proved). That the engine follows this discipline was established BY READING (/repo 8f43b2a; "
+    "not machine-checked against the engine; epochs = creation order of `new_write_batch`): (a) columns keyed by a query id (QueryKind, NodeInfo, LastVerified, forward edges / observations, "
+    "QueryInput/Result, PendingBackwardProjection): written only by that query's publication block – batch created at slow_path.rs:196/221 resp. database.rs:913 (clean_query) while the "
+    "query's computing lock is held, submitted (database.rs:1220 / :1001) before `lock_guard.done()` (computing.rs:777 / :676) – or by the input session under the exclusive phase lock with a "
+    "batch created after the lock (sync.rs, input_session.rs:137); one owner per query and timestamp (C02 single_flight). (b) DirtySetColumn key (k,c): PUT only by `process_task` of the dirty "
+    "worker for node c (dirty_worker.rs:240/250/331), which runs at most once per timestamp for c (`dirtied_queries.insert`, dirty_worker.rs:209; cleared only by the next input session, "
+    "input_session.rs:128) – so one put per key and timestamp, from the batch of the walk that first reaches c: the session's batch (input_session.rs:131, exclusive phase) or the batch of the "
+    "publication block of a re-executed firewall / projection X whose value changed (slow_path.rs:196-210) or of a projection whose firewall set changed (database.rs:913-950); "
+    "`dirty_propagate_from_batch` returns only after every walk task and the edge buffer have been applied (dirty_worker.rs:300-336), which is before X's `set_computed` and `lock_guard.done()`. "
+    "DELETED only by k's own publication block: `clean_query` for the edges it found dirty AFTER awaiting the callee's repair (repair.rs:345, `add_to_clean_list: edge_is_dirty` :413; a clean "
+    "edge is never deleted, and is trusted only when the firewall frontier below the callee is settled, repair.rs:297-333, database.rs:728-793) or `set_computed` for the old forward edges of a "
+    "re-executed k (database.rs:1072/1095). A walk reaches (k,c) only through a firewall-free path c →* X, so X is in the firewall set of c and of k; k's publication in timestamp T starts "
+    "only after X is settled at T: user / firewall-repairing callers repair their firewall set first (computation_graph.rs:466-486), a firewall with a pending backward projection is not "
+    "'settled' and a firewall-repairing caller performs the projections before returning (fast_path.rs:45-52, backward_projection.rs:23-113), waiters on X's computing entry resume only after "
+    "`lock_guard.done()`. Hence for every key: put (walk, batch b_X) entirely precedes the creation of k's batch b_k, b_X is submitted before b_k is created, next timestamp's session batch is "
+    "created after the phase has drained – the writers hand the key over (`exclusiveSched`). The argument leans on the engine invariant that C01 proves for the sequential model (a query is "
+    "verified at T only above settled firewalls) and on C02's single flight; a violation would be visible only through the STORE (after the entry is un-pinned and evicted, or after a restart), "
+    "not through reads served by the cache",
     "one foreground task has at most one open write batch at a time, so batch epochs of its writes are non-decreasing in issue order "
     "(with two open batches a write recorded in the lower-epoch batch after a write in the higher-epoch one loses in the store although it wins in the cache; "
     "this usage is outside the theorems and outside the generator)",
